@@ -182,6 +182,27 @@ Theorem C18_patch_applies : forall (same : json -> json -> Prop), (forall x, sam
 Proof. exact patch_applies. Qed.
 Print Assumptions C18_patch_applies.
 
+(* ---- the patch on the wire ---- *)
+
+(* For every encoding of the operations into the `patch` field and every decoder on the API server's side that
+   satisfy the round-trip law (Python json.dumps + STANDARD base64 / strict standard base64 + JSON parse: validated
+   on every real response by the check): what the server decodes from the response is exactly what as_json_patch
+   computed — nothing when the operation list is empty (field absent). *)
+Theorem C18_patch_received : forall (text : Type) (encode : list jop -> text) (decode_std : text -> option (list jop)),
+  (forall ops, decode_std (encode ops) = Some ops) ->
+  forall from_diff uid c hs run patch fns body r,
+    serve from_diff uid c hs run patch fns body = Ok r ->
+    exists ops, as_json_patch from_diff patch fns body = Ok ops /\
+                received_patch encode decode_std r = Some ops.
+Proof. exact serve_patch_received. Qed.
+Print Assumptions C18_patch_received.
+
+Theorem C18_wire_law_satisfiable :
+  exists (text : Type) (encode : list jop -> text) (decode_std : text -> option (list jop)),
+    forall ops, decode_std (encode ops) = Some ops.
+Proof. exact wire_law_satisfiable. Qed.
+Print Assumptions C18_wire_law_satisfiable.
+
 (* ---- special characters in keys ---- *)
 
 (* every path over arbitrary keys survives RFC 6901 escaping: parse (render p) = p *)
